@@ -324,7 +324,7 @@ def run_inner(ctx):
         inputs.append(("valid", e))
     for d in directed():
         inputs.append(("directed", d))
-    budget = 14000 if quick else 150000
+    budget = 14000 if quick else 45000
     muts = []
     for e in encs:
         muts += mutations(e, rng, quick)
@@ -334,7 +334,7 @@ def run_inner(ctx):
         rest = [m for m in muts if not (m[0] == "truncate" and len(m[1]) < 120)]
         muts = keep + rng.sample(rest, max(0, budget - len(keep)))
     inputs += muts
-    for _ in range(3000 if quick else 40000):
+    for _ in range(3000 if quick else 12000):
         inputs.append(("random", random_stream(rng)))
     seen, uniq, skipped = set(), [], 0
     for s, b in inputs:
@@ -354,6 +354,12 @@ def run_inner(ctx):
             plines.append("dec\t%d\t%d\t%s" % (len(pmeta), unp, b.hex()))
             pmeta.append((s, b, unp))
     rc, o, pres, oracles2 = base.run_pickle_harness(ctx, plines, "c15dec")
+    if rc != 0 and ctx.died_on is not None:
+        s, b, unp = pmeta[ctx.died_on]
+        ctx.violation("the process died (fatal error) while decoding %d input bytes (%s stream)" % (len(b), s),
+                      {"oracle": "process-died", "input_hex": b.hex(), "unpickler": ["nil", "object-preserving test unpickler"][unp],
+                       "output_tail": o[-1500:], "how": "pickle.NewDecoder(bytes.NewReader(input), unpickler).Decode()"})
+        return
     if rc != 0:
         ctx.log(o[-3000:])
         ctx.violation("pickle harness failed on the decode stream (exit %d): the test process died" % rc,
@@ -369,6 +375,19 @@ def run_inner(ctx):
     files = {"zz_verif_c15_env_test.go": os.path.join(HARNESS, "overlay/root/zz_verif_c15_env_test.go"),
              "zz_verif_c15_record_test.go": os.path.join(HARNESS, "overlay/root/zz_verif_c15_record_test.go")}
     rc, o = ctx.go_overlay_test("", files, "^TestVerifC15Env$", {"VERIF_IN": inp, "VERIF_OUT": outp})
+    if rc != 0 and os.path.exists(outp):
+        begun, done = None, set()
+        for line in open(outp, errors="replace"):
+            f = line.rstrip("\n").split("\t")
+            if f[0] == "begin":
+                begun = int(f[1])
+            elif f[0] == "dec":
+                done.add(int(f[1]))
+        if begun is not None and begun not in done:
+            ctx.violation("the process died (fatal error) while decoding with envUnpickler: %s" % inputs[begun][1].hex()[:120],
+                          {"oracle": "process-died", "input_hex": inputs[begun][1].hex(), "output_tail": o[-1500:],
+                           "how": "pickle.NewDecoder(r, pickle.UnpicklerFunc(envUnpickler)).Decode()"})
+            return
     if rc != 0:
         ctx.log(o[-3000:])
         ctx.violation("dawn-package harness failed to build or run (exit %d)" % rc,
@@ -381,6 +400,8 @@ def run_inner(ctx):
             oracles3.append(f)
         elif f[0] == "dec":
             eres[int(f[1])] = f[2]
+        elif f[0] == "begin":
+            pass
         elif f[0] == "reason":
             reasons.append(f)
 
@@ -477,7 +498,7 @@ def run_inner(ctx):
                             "envUnpickler; inputs whose declared 4-byte length exceeds the input size are skipped (%d); all "
                             "1023 key-difference sets through diffEnv; %d record corruptions in subprocesses. non-trivial = decodes "
                             "to a value; distinct by (input, unpickler)"
-                            % (len(encs), "sampled" if quick else "all", 3000 if quick else 40000, len(directed()), skipped, nrec))
+                            % (len(encs), "sampled" if quick else "all", 3000 if quick else 12000, len(directed()), skipped, nrec))
     ctx.coverage["exhaustive"] = False
     ctx.coverage["correspondence"]["distribution"] = dist
     ctx.add_samples([[m[0], m[1].hex()[:80], m[2], m[3][:80]] for m in meta[::max(1, len(meta) // 5)]])
